@@ -29,6 +29,7 @@ func SameBytes(a, b []byte) bool   { panic("engine") }
 func SameString(a, b string) bool  { panic("engine") }
 func Catch(f func()) bool          { panic("engine") }
 func PanicMsg() string             { panic("engine") }
+func ErrText(err error) string     { panic("engine") }
 func Observe(tag string, b []byte) {}
 func AssumeCollisionFree()         {}
 func AllocBudget(bytes int)        {}
